@@ -30,6 +30,16 @@ CHECKS = {
               "validated sample by sample."),
         design_ref="DESIGN.md section 4, C11",
         note="exhaustive on the 5-level alphabet (integers; list/int/float containers alternate); sampled for real-valued series; trusted: TLC 1.8, FP.class, TableIO.class"),
+    "C12": dict(
+        engine="Crossings",
+        technique="TLA+ zero-crossing machine + switched-peak relation (declarative and one-pass acceptor, proved equal by TLC on all index subsets of short series); exhaustive lock-step tables; TLC trace validation",
+        category="model_checking",
+        text=("MC_Crossings: every series over {-2..2} to length 7/8 and {-3..3} to length 5/6 (quick/thorough): zero-crossing machine = "
+              "declarative set; switched-peak acceptor = declarative relation on every candidate index set (lengths <= 5/6); in every "
+              "state the implementation's zero crossings (keep_adj_zeros T/F) equal the model, its switched peaks satisfy the relation, "
+              "and the tol = 0.5 / 1.5 results are subsequences. Trace_Crossings: random series up to 5000 samples validated sample by sample."),
+        design_ref="DESIGN.md section 4, C12",
+        note="exhaustive on the two integer alphabets; sampled for real-valued series (|values| in [1e-100,1e100]); switched peaks: any maximiser accepted; trusted: TLC 1.8, FP.class, TableIO.class"),
 }
 
 NOT_YET = {}
